@@ -60,6 +60,7 @@ def main():
 
     direct = []
     q_cases = []
+    q4_cases = []
     stats = {"dap2_array": 0, "dap2_grid": 0, "dap4": 0, "with_url_constraint": 0}
 
     class Spy:
@@ -201,6 +202,13 @@ def main():
                     except Exception as e:  # noqa
                         if len(direct) < 12:
                             direct.append(dict(info, law="a non-empty in-domain index can be read", error=repr(e)[:300]))
+        def dap4_query_case(ok, path, seen_shape, stored, full_idx):
+            """the constraint the DAP4 proxy sent for /x vs the same Gallina model (fix_slice, combine_slices, hyperslab)"""
+            q = app4.seen[-1][1]
+            q = q.replace("dap4.ce=/", "dap4.ce=", 1)
+            if ok and path == "x" and q.startswith("dap4.ce=x") and "&" not in q and len(q4_cases) < (300 if T == "quick" else 3000):
+                q4_cases.append("(%s, %s, %s, %s)" % (clist(seen_shape, cz), clist(stored, c_item), clist(full_idx, c_item),
+                                                      '"%s"%%string' % q[len("dap4.ce="):]))
         # ------------------------------------------------------------ DAP4 against the reference server
         root = D.Node("d4")
         v = D.Var("x", "Int32", [("anon", n) for n in shape], src)
@@ -221,8 +229,9 @@ def main():
                     stats["dap4"] += 1
                     try:
                         got = c4[path].data[idx if len(idx) != 1 else idx[0]]
-                        check_array("dap4 " + path, got, want, {"shape": list(shape), "index": repr(idx), "protocol": "dap4",
-                                                                 "query": app4.seen[-1][1]})
+                        ok4 = check_array("dap4 " + path, got, want, {"shape": list(shape), "index": repr(idx), "protocol": "dap4",
+                                                                       "query": app4.seen[-1][1]})
+                        dap4_query_case(ok4, path, list(shape), [slice(None)] * rank, full)
                     except Exception as e:  # noqa
                         if len(direct) < 12:
                             direct.append({"law": "a non-empty in-domain index can be read over DAP4", "index": repr(idx),
@@ -258,9 +267,10 @@ def main():
                     r.count((ci, "dap4-pre", path, slab4, repr(idx)))
                     try:
                         got = proxy.data[idx if len(idx) != 1 else idx[0]]
-                        check_array("dap4 (URL hyperslab) " + path, got, want,
-                                    {"shape": list(shape), "url_constraint": slab4, "index": repr(idx), "protocol": "dap4",
-                                     "history": [repr(h) for h in hist], "query": app4.seen[-1][1]})
+                        ok4 = check_array("dap4 (URL hyperslab) " + path, got, want,
+                                          {"shape": list(shape), "url_constraint": slab4, "index": repr(idx), "protocol": "dap4",
+                                           "history": [repr(h) for h in hist], "query": app4.seen[-1][1]})
+                        dap4_query_case(ok4, path, list(base4.shape), [slice(a_, b_ + 1, s_) for a_, s_, b_ in pre4], expand(idx, rank))
                     except Exception as e:  # noqa
                         if len(direct) < 12:
                             direct.append({"law": "a non-empty in-domain index can be read over DAP4 (URL hyperslab)", "index": repr(idx),
@@ -275,8 +285,13 @@ def main():
     except RuntimeError as e:
         r.violation({"kind": "correspondence-broken", "error": str(e)[-1500:], "theorem": "query text correspondence"}, found=False)
         bad = []
-    r.extra["cases"] = {"query": len(q_cases)}
-    r.extra["mismatches"] = {"query": len(bad)}
+    try:
+        bad4 = coq_eval_mismatches(PID + "_query4", IMPORTS, "chk_query", q4_cases, "list Z * list item * list item * string", shard=200)
+    except RuntimeError as e:
+        r.violation({"kind": "correspondence-broken", "error": str(e)[-1500:], "theorem": "DAP4 query text correspondence"}, found=False)
+        bad4 = []
+    r.extra["cases"] = {"query": len(q_cases), "dap4_query": len(q4_cases)}
+    r.extra["mismatches"] = {"query": len(bad), "dap4_query": len(bad4)}
     r.cov["rule"] = ("a case is (shape of rank 1-3 with extents 1-6, URL pre-constraint or none, variable kind array/grid with output_grid "
                      "on/off or DAP4 variable in root/group, index tuple built from per-axis forms incl. negatives, out-of-range bounds, "
                      "Ellipsis, short tuples) with a non-empty numpy selection; distinct = distinct tuple")
@@ -284,6 +299,9 @@ def main():
         r.sample({"query_case": q_cases[0]})
     for d in direct[:5]:
         r.violation(dict(d, kind="property-violated", how="real client vs numpy on the source array"), found=True)
+    if not direct and bad4:
+        r.violation({"kind": "correspondence-broken", "theorem": "constraint sent by BaseProxyDap4 vs the Gallina model (props/C02.v)",
+                     "case": q4_cases[bad4[0]], "n_mismatches": len(bad4)}, found=False)
     if not direct and bad:
         r.violation({"kind": "correspondence-broken", "theorem": "query text sent by BaseProxyDap2 vs the Gallina model (props/C02.v)",
                      "case": q_cases[bad[0]], "n_mismatches": len(bad)}, found=False)
